@@ -397,7 +397,7 @@ fn centrality_case(rng: &mut Rng, idx: u64, thorough: bool) -> GCase {
 }
 
 pub fn run_c05(a: &Args) {
-    let total: u64 = if a.thorough { 80_000 } else { 3_000 };
+    let total: u64 = if a.thorough { 80_000 } else { 12_000 };
     for idx in 0..total {
         if !ctx::mine(idx) {
             continue;
@@ -471,7 +471,7 @@ pub fn run_c05(a: &Args) {
 }
 
 pub fn run_c06(a: &Args) {
-    let total: u64 = if a.thorough { 80_000 } else { 3_000 };
+    let total: u64 = if a.thorough { 80_000 } else { 12_000 };
     for idx in 0..total {
         if !ctx::mine(idx) {
             continue;
@@ -537,7 +537,7 @@ fn sorted_paths(p: &[Vec<String>]) -> Vec<Vec<String>> {
 pub fn run_c08(a: &Args) {
     let kinds = kinds8();
     let wcl = vec![WClass::Unweighted, WClass::Exact, WClass::Exact, WClass::ExactWide, WClass::Generic, WClass::Generic];
-    let total: u64 = if a.thorough { 12_000 } else { 2_400 };
+    let total: u64 = if a.thorough { 12_000 } else { 6_000 };
     for idx in 0..total {
         if !ctx::mine(idx) {
             continue;
@@ -618,6 +618,45 @@ pub fn run_c08(a: &Args) {
                             fail(func, "differs-from-single_source", json!({"source": d.names[s]}));
                             break;
                         }
+                    }
+                }
+            }
+        }
+        // all_pairs / multi_source with a target or a cutoff == per-source single_source with the same options
+        for t in 0..n.min(4) {
+            for (cut, first_only, with_paths) in [(None, false, true), (Some(1.5), false, false), (None, true, true)] {
+                let tn = d.names[(t * 3 + 1) % n].clone();
+                let singles: Vec<Option<SPMap>> = (0..n).map(|s| ss!(s, Some(tn.clone()), cut, first_only, with_paths)).collect();
+                let ap = guard("dijkstra::all_pairs", || dijkstra::all_pairs(&g, weighted, Some(tn.clone()), cut, first_only, with_paths));
+                let ms = guard("dijkstra::multi_source", || dijkstra::multi_source(&g, weighted, d.names.clone(), Some(tn.clone()), cut, first_only, with_paths));
+                ctx::eval(2);
+                for (func, r) in [("all_pairs", ap), ("multi_source", ms)] {
+                    if let Ok(Ok(mm)) = r {
+                        for s in 0..n {
+                            let (a, b) = match (mm.get(&d.names[s]), &singles[s]) {
+                                (Some(a), Some(b)) => (a, b),
+                                _ => {
+                                    fail(func, "optioned-call-differs-from-single_source", json!({"source": d.names[s], "target": tn, "cutoff": cut}));
+                                    break;
+                                }
+                            };
+                            // the target's entry is fully determined; other entries must be reported consistently
+                            let ta = a.get(&tn);
+                            let tb = b.get(&tn);
+                            let same_t = match (ta, tb) {
+                                (None, None) => true,
+                                (Some(x), Some(y)) => x.distance.to_bits() == y.distance.to_bits() && (first_only || sorted_paths(&x.paths) == sorted_paths(&y.paths)),
+                                _ => false,
+                            };
+                            let keys_a: BTreeSet<&String> = a.keys().collect();
+                            let keys_b: BTreeSet<&String> = b.keys().collect();
+                            if !same_t || keys_a != keys_b || a.iter().any(|(k, v)| v.distance.to_bits() != b[k].distance.to_bits()) {
+                                fail(func, "optioned-call-differs-from-single_source", json!({"source": d.names[s], "target": tn, "cutoff": cut, "first_only": first_only, "with_paths": with_paths}));
+                                break;
+                            }
+                        }
+                    } else {
+                        fail(func, "optioned-call-failed", json!({"target": tn, "cutoff": cut}));
                     }
                 }
             }
